@@ -409,6 +409,10 @@ def run(ctx):
     r20b(ctx)
     r20c(ctx)
     r20d(ctx)
+    # fill() filters by self.outline_level: that property must read this TOC's own source element, not the first one of the document (rule shared with C12)
+    from ..registry import build_registry
+    from .c12 import r12k
+    r12k(ctx, build_registry(ctx.repo))
 
 
 from ..selftest import Seed, unparse_seed  # noqa: E402
